@@ -436,6 +436,7 @@ pub fn c16_case(data: &[u8]) -> Option<c16::Case> {
         opts,
         script,
         sink_fail_at: None,
+        sink_err_style: 0,
         payload_end: None,
         expected: vec![],
         finish_ok: true,
